@@ -81,7 +81,7 @@ if (inp.units) {
         }
         out.units.push({ u: parts.join(',') });
       } else {
-        out.units.push({ u: hexUnits(String(helper(c.fn, unitsOf(c.u), c.a || []))) });
+        out.units.push({ u: hexUnits(String(helper(c.fn, unitsOf(c.u || ''), c.a || []))) });
       }
     } catch (err) {
       out.units.push({ err: String(err) });
